@@ -930,6 +930,7 @@ impl Net {
 				cd.outbound_scid_alias, cd.inbound_scid_alias, cd.is_outbound, cd.is_announced, cd.force_close_spend_delay,
 				cd.inbound_htlc_minimum_msat, cd.inbound_htlc_maximum_msat, cd.config, cd.feerate_sat_per_1000_weight,
 				cd.channel_shutdown_state, cd.confirmations_required);
+			if std::env::var("VERIF_DEBUG_STAT").is_ok() && !self.stat_ids.contains_key(&stat) { eprintln!("STAT {} {}", self.stat_ids.len() + 1, stat); }
 			let stat_id = { let n = self.stat_ids.len(); *self.stat_ids.entry(stat).or_insert(n + 1) };
 			self.ev(json!({"ev":"proj","node":i,"chan":c,"peer":peer,"static":stat_id,
 				"out_cap":cd.outbound_capacity_msat,"in_cap":cd.inbound_capacity_msat,
